@@ -119,7 +119,7 @@ class ThreadSched:
         self.counters: Dict[str, int] = {}
         self.fp: List[str] = []
         self.aborting = False
-        self.stall: Dict[str, int] = {}   # thread name -> not schedulable before this point count (stalled-thread fault)
+        self.stall: Dict[str, int] = {}   # thread name -> not schedulable before this many scheduling decisions (stalled-thread fault)
 
     # ---- API for the code under test (patched in) -----------------------------
     def timer(self) -> float:
@@ -186,7 +186,7 @@ class ThreadSched:
         for t in self.threads:
             if t.state == "done":
                 continue
-            if self.stall.get(t.name, 0) > self.points:
+            if self.stall.get(t.name, 0) > self.iters:
                 continue
             if t.state == "ready":
                 out.append(t)
@@ -209,7 +209,7 @@ class ThreadSched:
                 if not run:
                     # nothing can run now: let virtual time jump, or lift stalls
                     sleepers = [t for t in alive if t.state == "sleeping"]
-                    stalled = [t for t in alive if self.stall.get(t.name, 0) > self.points and t.state != "sleeping"]
+                    stalled = [t for t in alive if self.stall.get(t.name, 0) > self.iters and t.state != "sleeping"]
                     if stalled:
                         for t in stalled:
                             self.stall[t.name] = 0
@@ -217,7 +217,7 @@ class ThreadSched:
                     if sleepers:
                         self.now_ns = max(self.now_ns, min(t.wake for t in sleepers))
                         for t in sleepers:
-                            if self.stall.get(t.name, 0) > self.points:
+                            if self.stall.get(t.name, 0) > self.iters:
                                 self.stall[t.name] = 0
                         continue
                     raise Deadlock(", ".join(f"{t.name}:{t.state}" for t in alive))
